@@ -74,6 +74,8 @@ def gen_config(rng, escape=False, small=False, kicks=None, tout=None):
     if rng.random() < 0.35:
         kw["BH_IFMR_method"] = rng.choice(["banerjee20", "banerjee20-delayed", "cosmic-rapid", "cosmic-delayed",
                                            "linear", "powerlaw", "brokenpowerlaw"])
+    if kw.get("BH_IFMR_method") == "brokenpowerlaw" and mb[-1] > 100.0:
+        mb[-1] = 100.0          # the default broken power law is defined up to 100 Msun (C09: "or the table limit if lower")
     if kicks is None:
         kicks = rng.random() < 0.25
     if kicks:
